@@ -202,7 +202,7 @@ REVIEWED_LAX = {"sync"}
 PROVED_A = [
     "mips/mipsel: addu subu and or xor nor (incl. move/negu) ; sll srl sra nop ; sllv srlv srav ; addiu andi ori xori ; lui ; "
     "slt sltu slti sltiu ; movn movz ; mfhi mflo mthi mtlo ; mult multu ; lb lbu lh lhu lw ; sb sh sw ; add addi sub (no-overflow path; "
-    "the overflow path: lift_overflow_stops) -- lift_correct_single: "
+    "the overflow path: lift_overflow_stops) ; lwl lwr in both byte orders -- lift_correct_single: "
     "all fields, all states",
     "mips/mipsel: beq bne bgez bgtz blez bltz b j with any of the above in the delay slot -- lift_correct_pair",
     "ppc: addi/li addis/lis add subf addze (Rc) mr nop rlwinm/slwi (Rc) srawi (Rc) cmpwi cmplwi lbz lwz lwzu stw stwu stmw "
@@ -210,6 +210,6 @@ PROVED_A = [
 ]
 UNPROVED = [
     "mips/mipsel (differential only): div divu (zero-divisor finding), madd maddu msub msubu mul, "
-    "clz clo (loop graphs), lwl lwr swl swr ll sc pref sync, teq syscall break rdhwr, jr jal jalr bal bgezal bltzal (findings)",
+    "clz clo (loop graphs), swl swr (mirrored syntactically, not proved), ll sc pref sync, teq syscall break rdhwr, jr jal jalr bal bgezal bltzal (findings)",
     "ppc (differential only): bdnzl (finding: nop), conditional bclr forms",
 ]
